@@ -650,7 +650,7 @@ func genReq(r *rand.Rand, d desc, id int, last bool) reqD {
 			q.Chunks[r.Intn(len(q.Chunks))].Bad = true
 		}
 		q.ZeroLine = hlib.Pick(r, []string{"0", "0", "000", "0;last"})
-		q.Trailer = r.Intn(6) == 0
+		q.Trailer = r.Intn(4) == 0
 	default:
 		q.Fr = "multipart"
 		q.N = hlib.Pick(r, []int{0, 0, 1, 32, 64, 100, 1000})
@@ -677,11 +677,6 @@ func genReq(r *rand.Rand, d desc, id int, last bool) reqD {
 				q.Cut = 1 + hlib.Pick(r, []int{0, 1, len(full.body) / 2})
 			}
 		}
-	}
-	if q.Trailer && q.truncated() {
-		// a streamed body cut off inside a trailer section WITH fields is reported as complete and the leftover trailer
-		// bytes go to the request parser (candidate finding reported to the coordinator): not generated
-		q.Trailer = false
 	}
 	dl := dataLen(q)
 	switch r.Intn(6) {
@@ -903,6 +898,13 @@ func corpus() []desc {
 			one(base, reqD{Method: "POST", Fr: "multipart", N: 64, MpEnc: true, MpBad: true, Rd: "upto", K: 5, Fin: "detach"})
 			one(base, reqD{Method: "POST", Fr: "chunked", Chunks: []chunkD{{Size: 64, Line: "40"}, {Size: 9000, Line: "2328"}}, Trailer: true, Rd: "none", Fin: "none"})
 			one(base, reqD{Method: "POST", Fr: "chunked", Chunks: []chunkD{{Size: 64, Line: "40"}}, Trailer: true, Rd: "eof", Fin: "none"})
+			// a body cut off inside its trailer section (with fields, and inside the bare final CRLF): not a clean end
+			for _, cut := range []int{81, 75, 74, 73} {
+				for _, rd := range []string{"eof", "none"} {
+					one(base, reqD{Method: "POST", Fr: "chunked", Chunks: []chunkD{{Size: 64, Line: "40"}}, Cut: cut, Rd: rd, Fin: "none", Trailer: true})
+				}
+			}
+			one(base, reqD{Method: "POST", Fr: "chunked", Chunks: []chunkD{{Size: 64, Line: "40"}}, Cut: 1 + 4 + 64 + 2 + 3 + 1, Rd: "eof", Fin: "none"})
 			// Body() / BodyWriteTo / SetBodyStream on a streamed request
 			for dv := 3; dv <= 5; dv++ {
 				one(base, reqD{Method: "POST", Fr: "fixed", N: 10000, Rd: "eof", Fin: "detach", Detach: dv})
